@@ -584,6 +584,46 @@ namespace hv
         }
     };
 
+    // two structural inputs, each ASSEMBLED from two independent ports (non-peered); at its <at>-th evaluation the node makes the
+    // list selected by <drop> (0 = xs, 1 = ys) passive AT RUN TIME, at its <back>-th evaluation (0 = never) active again. Ticks
+    // of a passive list alone must not run it, ticks of the other list still must (C03)
+    struct VGate4
+    {
+        static constexpr auto name = "v_gate4";
+        static void start(State<Int> n, Scalar<"uid", Int> uid, NodeView nv, DateTime now)
+        {
+            n.set(Int{0});
+            user_start(uid.value(), nv, now);
+        }
+        static void stop(Scalar<"uid", Int> uid, NodeView nv, DateTime now) { user_stop(uid.value(), nv, now); }
+        static void eval(In<"xs", TSL<TS<Int>, 2>, InputValidity::Unchecked> xs, In<"ys", TSL<TS<Int>, 2>, InputValidity::Unchecked> ys,
+                         Scalar<"uid", Int> uid, Scalar<"drop", Int> drop, Scalar<"at", Int> at, Scalar<"back", Int> back, State<Int> n,
+                         NodeView nv, DateTime now, Out<TS<Int>> out)
+        {
+            Int sum = 0;
+            for (std::size_t i = 0; i < 2; ++i)
+            {
+                if (xs[i].valid()) sum += xs[i].value();
+                if (ys[i].valid()) sum += ys[i].value();
+            }
+            sum = wrap(sum);
+            out.set(sum);
+            const Int k = n.get() + 1;
+            n.set(k);
+            if (k == at.value())
+            {
+                if (drop.value() == 0) xs.make_passive();
+                else if (drop.value() == 1) ys.make_passive();
+            }
+            if (back.value() > 0 && k == back.value())
+            {
+                if (drop.value() == 0) xs.make_active();
+                else if (drop.value() == 1) ys.make_active();
+            }
+            log_eval(uid.value(), nv, now, sum);
+        }
+    };
+
     // tick-driven mirror (active input) and clock-driven probe (passive input)
     template <typename Sch>
     struct CMirror
